@@ -22,6 +22,18 @@ TECHNIQUE = "Andersen-style points-to + in-place effect analysis over the resolv
 ENTROPY = {"random", "time", "os", "uuid", "secrets", "datetime", "threading", "multiprocessing"}
 
 
+def _write_only_use(x):
+    """`self.f[k] = v`, `del self.f[k]`, `self.f.append(v)` / `.clear()` / `.update(..)` as a statement: the field is written through,
+    its content is not read."""
+    par = getattr(x, "parent", None)
+    if isinstance(par, ast.Subscript) and par.value is x and isinstance(par.ctx, (ast.Store, ast.Del)):
+        return True
+    if isinstance(par, ast.Attribute) and par.value is x and par.attr in ("append", "extend", "clear", "update", "add", "insert") \
+            and isinstance(getattr(par, "parent", None), ast.Call) and par.parent.func is par and isinstance(getattr(par.parent, "parent", None), ast.Expr):
+        return True
+    return False
+
+
 def r1(ctx, chk, rule="C10.1"):
     n = shared.rule_input_ownership(ctx, chk, rule)
     chk.extra["inplace_operations_examined"] = n
@@ -180,7 +192,8 @@ def r2_no_carried_state(ctx, chk, rule="C10.2"):
             readers = [x for g_ in scope if g_.cls is not None and g_.cls.name == game_cls
                        for x in walk_no_nested_defs(g_.node) if isinstance(x, ast.Attribute) and x.attr == s.field and isinstance(x.ctx, ast.Load) and attr_path(x) == "self." + s.field
                        and not (isinstance(ctx.cfg(g_).stmt_of(x), ast.Expr) and isinstance(ctx.cfg(g_).stmt_of(x).value, ast.Call)
-                                and call_name(ctx.cfg(g_).stmt_of(x).value).startswith("logging."))]
+                                and call_name(ctx.cfg(g_).stmt_of(x).value).startswith("logging."))
+                       and not _write_only_use(x)]
             if not readers:
                 chk.note("%s stores self.%s while solving; nothing reachable from solve() reads that field, so it cannot carry anything into a later solve" % (s.func.short, s.field))
                 continue
